@@ -596,8 +596,9 @@ def render_reads(info, rd):
     acc_all = sorted((tidx[f], by_path[p_]["idx"]) for f in tus for p_ in rd["accesses"][f])
     # only accesses to members that are neither persisted nor of an unrestricted class need a decision in Lean
     # (the persisted set is tied to the descriptor table by c05_reads_persisted_consistent)
+    restored = set(rules.get("restored_counters", {}))
     acc = sorted((tidx[f], by_path[p_]["idx"]) for f in tus for p_ in rd["accesses"][f]
-                 if p_ not in per and tj.get(p_, {}).get("class") not in unrestricted)
+                 if p_ not in per and p_ not in restored and tj.get(p_, {}).get("class") not in unrestricted)
     o.append("/-- (translation unit, member index): accesses, found by walking the access chains of the file, to members")
     o.append("    that are neither persisted nor of a class that cannot influence the trajectory -/")
     o.append("def accesses : List (Nat × Nat) := [%s]" % ", ".join("(%d, %d)" % a for a in acc))
@@ -606,6 +607,8 @@ def render_reads(info, rd):
     o.append("def accessCountAll : Nat := %d" % len(acc_all))
     o.append("/-- members that are persisted by a row of the descriptor table -/")
     o.append("def persistedMembers : List Nat := [%s]" % ", ".join(str(by_path[p_]["idx"]) for p_ in sorted(per, key=lambda x: by_path[x]["idx"]) if p_ in by_path))
+    o.append("/-- element counters of persisted arrays that are re-derived exactly from the payload size on load (ref/C05_reads.json) -/")
+    o.append("def restoredCounters : List Nat := [%s]" % ", ".join(str(by_path[p_]["idx"]) for p_ in sorted(rules.get("restored_counters", {})) if p_ in by_path))
     o.append("/-- members whose class (callback, handle, wallclock, flag, pointer) cannot influence the trajectory -/")
     unr = sorted(by_path[p_]["idx"] for p_, v in tj.items() if p_ in by_path and v["class"] in unrestricted)
     o.append("def unrestrictedMembers : List Nat := [%s]" % ", ".join(map(str, unr)))
